@@ -88,6 +88,9 @@ func fs2VaultCommand() *cobra.Command {
 			if err != nil {
 				return err
 			}
+			// apply the same key name validation as the running node does (see crypto.Configure): key names that would
+			// address storage outside the key store's namespace (e.g. ".." from a file named ".._private.pem") are refused.
+			target = spi.NewValidatedKIDBackendWrapper(target, spi.KidPattern)
 
 			directory := args[0]
 			keys, err := fsToOtherStorage(cmd.Context(), directory, target)
